@@ -66,7 +66,7 @@ def main():
     t0 = time.time()
     try:
         env2 = dict(os.environ, VERIF_REPO=wt2, VERIF_EVID=wt2 + "-evid", VERIF_REPLAYS=wt2 + "-replays")
-        rc, o = sh("./check %s --tier %s" % (pid, tier), cwd="/verif", env=env2, timeout=7200)
+        rc, o = sh("./check %s --tier %s" % (pid, tier), cwd=os.path.dirname(os.path.dirname(os.path.abspath(__file__))), env=env2, timeout=7200)
     finally:
         sh("git -C /repo worktree remove --force %s; rm -rf %s-evid %s-replays" % (wt2, wt2, wt2))
     out["check_rc"] = rc
